@@ -63,6 +63,8 @@ type Violation struct {
 	Detail  string            `json:"detail"`
 	Inputs  []InputVal        `json:"inputs"`
 	Prefix  []int32           `json:"prefix"`
+	Kinds   string            `json:"kinds,omitempty"`
+	Goroutines int            `json:"goroutines,omitempty"`
 	Stack   []string          `json:"stack,omitempty"`
 	Observe map[string]string `json:"observe,omitempty"`
 }
@@ -123,6 +125,8 @@ type Machine struct {
 	runningInit map[*ssa.Package]bool
 	prefix    []int32
 	decisions []int32
+	kinds     []byte // kind of each decision: 'b' branch, 'c' choose, 'z' concretize
+	curKind   byte
 	forks     [][]int32
 	pc        []*smt.Term
 	steps     int
@@ -145,6 +149,8 @@ type Machine struct {
 	userData  map[string]interface{}
 	clockNs   int64
 	idCounter uint64
+	cpos      int // position in Cfg.ConcretePrefix
+	inpos     int // position in Cfg.ConcreteInputs
 }
 
 type Frame struct {
@@ -228,6 +234,7 @@ func (m *Machine) addPC(c *smt.Term) {
 
 func (m *Machine) record(d int32) {
 	m.decisions = append(m.decisions, d)
+	m.kinds = append(m.kinds, m.curKind)
 	if len(m.decisions) > m.Opt.MaxDecisions {
 		panic(abortSig{OutTruncated, fmt.Sprintf("more than %d decisions", m.Opt.MaxDecisions)})
 	}
@@ -245,6 +252,7 @@ func (m *Machine) replaying() bool { return len(m.decisions) < len(m.prefix) }
 func (m *Machine) nextReplay() int32 {
 	d := m.prefix[len(m.decisions)]
 	m.decisions = append(m.decisions, d)
+	m.kinds = append(m.kinds, m.curKind)
 	return d
 }
 
@@ -254,6 +262,7 @@ func (m *Machine) Branch(c *smt.Term) bool {
 		return c.U == 1
 	}
 	F := m.F
+	m.curKind = 'b'
 	if m.replaying() {
 		if m.nextReplay() == 1 {
 			m.addPC(c)
@@ -291,6 +300,23 @@ func (m *Machine) Choose(n int, why string) int {
 	if n <= 1 {
 		return 0
 	}
+	m.curKind = 'c'
+	if m.concrete() {
+		// concrete re-execution: take the next 'c' decision of the recorded path
+		for m.cpos < len(m.Cfg.ConcretePrefix) {
+			d, k := m.Cfg.ConcretePrefix[m.cpos], m.Cfg.ConcreteKinds[m.cpos]
+			m.cpos++
+			if k == 'c' {
+				if int(d) >= n {
+					panic(abortSig{"engine-bug", "concrete re-execution diverged (choice out of range)"})
+				}
+				m.decisions = append(m.decisions, d)
+				m.kinds = append(m.kinds, 'c')
+				return int(d)
+			}
+		}
+		panic(abortSig{"engine-bug", "concrete re-execution diverged (recorded choices exhausted)"})
+	}
 	if m.replaying() {
 		return int(m.nextReplay())
 	}
@@ -308,6 +334,7 @@ func (m *Machine) Concretize(t *smt.Term, why string) uint64 {
 		return t.U
 	}
 	F := m.F
+	m.curKind = 'z'
 	for n := 0; ; n++ {
 		if n >= m.Opt.MaxConcretize {
 			panic(abortSig{OutTruncated, "concretize(" + why + ") exceeded bound @ " + m.where()})
@@ -356,7 +383,34 @@ func (m *Machine) Concretize(t *smt.Term, why string) uint64 {
 
 // ---------- inputs ----------
 
+func (m *Machine) concrete() bool { return m.Cfg != nil && m.Cfg.ConcreteInputs != nil }
+
 func (m *Machine) newInput(name, kind string, s smt.Sort) *smt.Term {
+	if m.concrete() {
+		if m.inpos >= len(m.Cfg.ConcreteInputs) {
+			panic(abortSig{"engine-bug", "concrete re-execution diverged (inputs exhausted)"})
+		}
+		in := m.Cfg.ConcreteInputs[m.inpos]
+		for in.Kind == "choice" { // choices are consumed by Choose
+			m.inpos++
+			if m.inpos >= len(m.Cfg.ConcreteInputs) {
+				panic(abortSig{"engine-bug", "concrete re-execution diverged (inputs exhausted)"})
+			}
+			in = m.Cfg.ConcreteInputs[m.inpos]
+		}
+		m.inpos++
+		var t *smt.Term
+		switch s.K {
+		case smt.KBool:
+			t = m.F.BoolC(in.U != 0)
+		case smt.KFP:
+			t = m.F.FPC(s.W, in.F)
+		default:
+			t = m.F.BVC(s.W, in.U)
+		}
+		m.inputs = append(m.inputs, inputRec{name: name, kind: kind, term: t})
+		return t
+	}
 	t := m.F.Var(name, s)
 	m.inputs = append(m.inputs, inputRec{name: name, kind: kind, term: t})
 	return t
@@ -381,6 +435,8 @@ func (m *Machine) modelInputs(extra ...*smt.Term) ([]InputVal, bool) {
 		iv := InputVal{Name: in.name, Kind: in.kind}
 		if in.term == nil {
 			iv.U = in.val
+		} else if in.term.IsConst() {
+			iv.U, iv.F = in.term.U, in.term.F
 		} else if in.term.S.K == smt.KFP {
 			iv.F = mod.FP[in.term.Name]
 		} else {
